@@ -1033,8 +1033,15 @@ impl Database {
             if let Some(schema) = catalog.get_schema_mut(schema_name) {
                 if let Some(table_def) = schema.get_table(table_name) {
                     let table_id = table_def.id() as u32;
+                    let toast_id = table_def.toast_id();
                     schema.remove_table(table_name);
                     self.shared.table_id_lookup.write().remove(&table_id);
+                    if let Some(toast_id) = toast_id {
+                        self.shared
+                            .table_id_lookup
+                            .write()
+                            .remove(&(toast_id as u32));
+                    }
                     actually_dropped = true;
                 } else if !drop_stmt.if_exists {
                     bail!(
@@ -1051,6 +1058,10 @@ impl Database {
                 let mut file_manager_guard = self.shared.file_manager.write();
                 let file_manager = file_manager_guard.as_mut().unwrap();
                 let _ = file_manager.drop_table(schema_name, table_name);
+                let toast_table_name = crate::storage::toast::toast_table_name(table_name);
+                if file_manager.table_exists(schema_name, &toast_table_name) {
+                    let _ = file_manager.drop_table(schema_name, &toast_table_name);
+                }
             }
         }
 
